@@ -3,6 +3,7 @@ pub mod c01;
 pub mod c02;
 pub mod c02_table;
 pub mod c03;
+pub mod c04;
 pub mod inst;
 pub mod samples;
 pub mod c07;
@@ -42,6 +43,9 @@ pub fn dispatch(op: &str, input: &Tree) -> Result<Tree, String> {
         return r;
     }
     if let Some(r) = samples::dispatch(op, input) {
+        return r;
+    }
+    if let Some(r) = c04::dispatch(op, input) {
         return r;
     }
     Err(format!("unknown op {op}"))
